@@ -46,6 +46,8 @@ def sites(wt):
             if st.count('"""') % 2 == 1:
                 indoc = not indoc
                 continue
+            if st.startswith('"""') or st.startswith("'") or st.startswith('"'):
+                continue        # one-line docstring / message text
             if indoc or st.startswith("#") or "_logger" in line or st.startswith(("import ", "from ", "def ", "class ", "@")):
                 continue
             if fn == "__init__.py" and ("_settings" not in line and "Events." not in line and "state." not in line
